@@ -12,7 +12,7 @@ for f in "$OUT"/demo*.py; do cp "$f" "$DEST"/; done
 cp "$OUT"/meta.json "$DEST"/meta.agent.json 2>/dev/null
 DEMO=$(ls "$DEST"/demo*.py | head -1)
 git -C /repo worktree remove --force "$WT" 2>/dev/null
-git -C /repo worktree add -q --detach "$WT" HEAD || exit 3
+git -C /repo worktree add -q --detach "$WT" "${BASE_REF:-HEAD}" || exit 3
 cd "$WT" || exit 3
 run_demo() { case "$DEMO" in *_test.py) PYTHONPATH=$WT timeout 300 /venv/bin/python -m pytest -q -p no:cacheprovider "$DEMO" >/tmp/wt/demo_$NAME.log 2>&1;; *) PYTHONPATH=$WT timeout 300 /venv/bin/python "$DEMO" >/tmp/wt/demo_$NAME.log 2>&1;; esac; echo $?; }
 # demos written by agents may hard-code their own worktree path: rewrite to this one
